@@ -31,9 +31,11 @@ pub enum Op<V> {
     Extend { t: usize, vs: Vec<V>, lo: usize, hi: bool },
     /// new stack via from_iter, with a twin built by repeated copy kept in lockstep
     FromIter { vs: Vec<V>, lo: usize, hi: bool },
+    /// push the same value `n` times (crossing size thresholds such as 2^16 entries cheaply)
+    Bulk { t: usize, v: V, n: usize },
 }
 
-pub const NKINDS: usize = 14;
+pub const NKINDS: usize = 15;
 pub const KIND_NAMES: [&str; NKINDS] = [
     "Push",
     "Clear",
@@ -49,6 +51,7 @@ pub const KIND_NAMES: [&str; NKINDS] = [
     "Retire",
     "Extend",
     "FromIter",
+    "Bulk",
 ];
 
 impl<V: Value> Op<V> {
@@ -68,6 +71,7 @@ impl<V: Value> Op<V> {
             Op::Retire { .. } => 11,
             Op::Extend { .. } => 12,
             Op::FromIter { .. } => 13,
+            Op::Bulk { .. } => 14,
         }
     }
 
@@ -88,6 +92,7 @@ impl<V: Value> Op<V> {
             Op::Retire { t } => json!({"op":"Retire","t":t}),
             Op::Extend { t, vs, lo, hi } => json!({"op":"Extend","t":t,"lo":lo,"hi":hi,"vs":vals(vs)}),
             Op::FromIter { vs, lo, hi } => json!({"op":"FromIter","lo":lo,"hi":hi,"vs":vals(vs)}),
+            Op::Bulk { t, v, n } => json!({"op":"Bulk","t":t,"n":n,"v":v.to_json()}),
         }
     }
 
@@ -111,6 +116,7 @@ impl<V: Value> Op<V> {
             "Retire" => Op::Retire { t: u("t")? },
             "Extend" => Op::Extend { t: u("t")?, vs: vs("vs")?, lo: u("lo")?, hi: b("hi")? },
             "FromIter" => Op::FromIter { vs: vs("vs")?, lo: u("lo")?, hi: b("hi")? },
+            "Bulk" => Op::Bulk { t: u("t")?, v: V::from_json(j.get("v")?)?, n: u("n")? },
             _ => return None,
         })
     }
@@ -174,6 +180,15 @@ impl<V: Value> Op<V> {
             Op::StackReserve { t, n } => {
                 if *n > 1 {
                     out.push(Op::StackReserve { t: *t, n: 1 });
+                }
+            }
+            Op::Bulk { t, v, n } => {
+                if *n > 1 {
+                    out.push(Op::Bulk { t: *t, v: v.clone(), n: n / 2 });
+                    out.push(Op::Bulk { t: *t, v: v.clone(), n: n - 1 });
+                }
+                for s in v.shrinks().into_iter().take(4) {
+                    out.push(Op::Bulk { t: *t, v: s, n: *n });
                 }
             }
             Op::Spawn { kind, n } => {
@@ -275,21 +290,21 @@ impl RunCfg {
     pub fn draw(prop: u8, caps: &Caps, thorough: bool, rng: &mut Rng) -> RunCfg {
         // indices: Push Clear Clone CloneFrom Merge Restart ResItems ResRegions StackRes CopyItem Spawn Retire Extend FromIter
         let mut w: [u32; NKINDS] = match prop {
-            1 => [90, 3, 2, 0, 1, 0, 2, 0, 0, 2, 2, 1, 0, 0],
-            2 => [70, 2, 2, 0, 1, 0, 8, 5, 5, 2, 2, 1, 3, 0],
-            3 => [45, 5, 8, 3, 2, 0, 2, 0, 8, 3, 3, 1, 15, 6],
-            4 => [50, 6, 8, 5, 5, 8, 1, 1, 0, 6, 2, 1, 2, 1],
-            8 => [60, 14, 2, 0, 2, 0, 2, 1, 1, 1, 3, 2, 3, 0],
-            9 => [55, 5, 12, 12, 1, 0, 1, 1, 1, 1, 4, 3, 2, 0],
-            10 => [50, 3, 1, 0, 10, 0, 10, 8, 5, 1, 6, 2, 2, 0],
-            11 => [80, 5, 4, 2, 3, 4, 0, 0, 0, 2, 2, 1, 0, 0],
-            12 => [80, 8, 1, 0, 6, 0, 1, 1, 0, 2, 2, 1, 0, 0],
-            13 => [85, 3, 1, 1, 1, 0, 1, 0, 0, 2, 2, 1, 3, 0],
-            14 => [60, 3, 3, 1, 2, 2, 0, 0, 0, 25, 3, 1, 0, 0],
-            16 => [60, 5, 1, 0, 1, 16, 2, 1, 1, 2, 2, 1, 3, 0],
-            18 => [75, 8, 2, 1, 3, 0, 3, 2, 2, 2, 2, 1, 3, 0],
-            20 => [80, 3, 1, 0, 1, 0, 0, 0, 0, 8, 3, 1, 3, 0],
-            _ => [80, 4, 3, 1, 2, 2, 2, 1, 1, 2, 2, 1, 2, 1],
+            1 => [90, 3, 2, 0, 1, 0, 2, 0, 0, 2, 2, 1, 0, 0, 0],
+            2 => [70, 2, 2, 0, 1, 0, 8, 5, 5, 2, 2, 1, 3, 0, 0],
+            3 => [45, 5, 8, 3, 2, 0, 2, 0, 8, 3, 3, 1, 15, 6, 0],
+            4 => [50, 6, 8, 5, 5, 8, 1, 1, 0, 6, 2, 1, 2, 1, 0],
+            8 => [60, 14, 2, 0, 2, 0, 2, 1, 1, 1, 3, 2, 3, 0, 0],
+            9 => [55, 5, 12, 12, 1, 0, 1, 1, 1, 1, 4, 3, 2, 0, 0],
+            10 => [50, 3, 1, 0, 10, 0, 10, 8, 5, 1, 6, 2, 2, 0, 0],
+            11 => [80, 5, 4, 2, 3, 4, 0, 0, 0, 2, 2, 1, 0, 0, 0],
+            12 => [80, 8, 1, 0, 6, 0, 1, 1, 0, 2, 2, 1, 0, 0, 0],
+            13 => [85, 3, 1, 1, 1, 0, 1, 0, 0, 2, 2, 1, 3, 0, 0],
+            14 => [60, 3, 3, 1, 2, 2, 0, 0, 0, 25, 3, 1, 0, 0, 0],
+            16 => [60, 5, 1, 0, 1, 16, 2, 1, 1, 2, 2, 1, 3, 0, 0],
+            18 => [75, 8, 2, 1, 3, 0, 3, 2, 2, 2, 2, 1, 3, 0, 0],
+            20 => [80, 3, 1, 0, 1, 0, 0, 0, 0, 8, 3, 1, 3, 0, 0],
+            _ => [80, 4, 3, 1, 2, 2, 2, 1, 1, 2, 2, 1, 2, 1, 0],
         };
         // swarm: randomly damp or boost some kinds, occasionally switch one off entirely
         for x in w.iter_mut().skip(1) {
@@ -323,6 +338,8 @@ impl RunCfg {
         if w[0] == 0 {
             w[0] = 50;
         }
+        // rare bulk pushes that cross size thresholds (2^16 entries) cheaply
+        w[14] = if matches!(prop, 1 | 2 | 8 | 9 | 10 | 12 | 16 | 18) && rng.chance(1, if thorough { 200 } else { 1500 }) { 6 } else { 0 };
         let max_steps = if thorough { 256 } else { 64 };
         let mut steps = match rng.below(8) {
             0 => 2 + rng.below(5),
@@ -354,6 +371,10 @@ impl RunCfg {
             knobs.nonfinite = !(caps.serde && w[5] > 0);
         }
         knobs.zst_huge = caps.zst_huge && rng.coin();
+        if prop == 14 && rng.chance(1, 4) {
+            // clone_onto targets with large allocations
+            knobs.max_len = 40 + rng.below(60);
+        }
         if prop == 11 && knobs.small_domain == 0 {
             knobs.small_domain = 2 + rng.below(3) as u8;
         }
@@ -508,6 +529,7 @@ pub fn gen_ops<V: Value>(cfg: &mut RunCfg, caps: &Caps, rng: &mut Rng) -> Vec<Op
                 Op::Spawn { kind, n: *rng.pick(&[0usize, 1, 3, 16, 100]) }
             }
             11 => Op::Retire { t },
+            14 => Op::Bulk { t, v: val(rng, &mut recent, cfg.repeat), n: *rng.pick(&[300usize, 5000, 65535, 65536, 70000]) },
             12 | 13 => {
                 let n = rng.small_len(8);
                 let vs: Vec<V> = (0..n).map(|_| val(rng, &mut recent, cfg.repeat)).collect();
